@@ -53,13 +53,19 @@ impl Object for MergeDict {
 
     fn enumerate(self: &Arc<Self>) -> Enumerator {
         // Collect all keys from all dictionaries (only include maps)
-        let keys: BTreeSet<Value> = self
+        // Insert one by one: collecting into a `BTreeSet` de-duplicates adjacent
+        // keys with `==`, which is not the `Ord` the set is keyed by (it keeps two
+        // NaN keys).
+        let mut keys = BTreeSet::new();
+        for key in self
             .values
             .iter()
             .filter(|x| x.kind() == ValueKind::Map)
             .filter_map(|v| v.try_iter().ok())
             .flatten()
-            .collect();
+        {
+            keys.insert(key);
+        }
         Enumerator::Iter(Box::new(keys.into_iter()))
     }
 }
